@@ -753,6 +753,45 @@ def main(chk: Check):
         full = boundary_query(kind, ids, pkgs)
         for d in (-1, 0, 1):
             batch_inputs.append((full, base, base + exact + d))
+    # the splittable criterion at a chosen RENDERED slot behind a random mix of groups and single
+    # criteria, so that slot and position in `charts` differ (also in their number of digits: slots
+    # 9/10/11/12 and 99/100/101 at small positions), again with exact-fill budgets
+    def slotted_query(target, pkgs, after):
+        q, left = Q(), target - 1
+        while left > 0:
+            c = rng.choice([0, 0, 1, 3, 7, 20])
+            if c and c + 2 <= left and rng.random() < 0.7:
+                q = q & Q.any_of(*[Q.keywords(f"g{i}") for i in range(c)])
+                left -= c + 2
+            elif left >= 9 and rng.random() < 0.5:  # one big group: position 1 or 2, slot >= 10
+                q = q & Q.any_of(*[Q.keywords(f"g{i}") for i in range(left - 2)])
+                left = 0
+            else:
+                q = q & Q.keywords("k")
+                left -= 1
+        q = q & Q.package_list_any(pkgs)
+        if after:
+            q = q & Q.without_tags("t") & Q.unresolved()
+        return q
+
+    small, large = [10, 12, 9, 11], [100, 99, 101]
+    targets = (small + [large[chk.seed % 3]]) if not (chk.thorough or chk.fingerprint_changed) else (small + large) * 3
+    for target in targets:
+        n = rng.randint(8, 30) if target < 50 else rng.randint(6, 10)
+        pkgs = long_pkgs(n, rng.random() < 0.6)
+        k = rng.randint(2, max(2, n // 2))
+        after = rng.random() < 0.5
+        probe = slotted_query(target, pkgs[:k], after)
+        state = rng.getstate()
+        exact = len(urllib.parse.urlencode(probe.params()))
+        # same prefix, all values
+        full = m.BugQuery(simple=probe.simple, limit=probe.limit, offset=probe.offset, order=probe.order,
+                          charts=tuple(c.with_values(pkgs) if isinstance(c, m.Criterion) and c.splittable else c
+                                       for c in probe.charts))
+        rng.setstate(state)
+        base = rng.choice([0, 57])
+        for d in (-1, 0, 1):
+            batch_inputs.append((full, base, base + exact + d))
     corpus = load_corpus()
     batch_inputs = [(build_query(m, c["query"]), c.get("base_length", 0), c.get("max_length", m.MAX_URL_LENGTH))
                     for c in corpus if c.get("kind") == "batches"] + batch_inputs
